@@ -134,7 +134,38 @@ def draw_bc(rng, dims, ndim):
     return "".join(rng.sample(chars, k))
 
 
+def draw_intgrid_spec(rng, ndim, max_cells, max_subs):
+    """Integer-typed corners with a FRACTIONAL cell (1/2 or 1/4): subregions whose corners are
+    integers too (kept as integer arrays by the library) then have cell faces at non-integer
+    coordinates in their interior - where a selection can cut them."""
+    q = rng.choice([2, 2, 4])
+    units = [rng.randint(1, 3) for _ in range(ndim)]
+    while math.prod(u * q for u in units) > max(max_cells, q**ndim):
+        units[units.index(max(units))] = max(1, max(units) - 1)
+        if all(u == 1 for u in units):
+            break
+    n = [u * q for u in units]
+    pmin = [float(rng.randint(-20, 20)) for _ in range(ndim)]
+    pmax = [a + u for a, u in zip(pmin, units)]
+    dims, un = draw_dims_units(rng, ndim, True)
+    spec = {"p1": pmin, "p2": pmax, "dims": dims, "units": un, "intcorners": True, "n": n, "bc": ""}
+    subs = []
+    for name in ["a", "b", "c"][: rng.choice([1, 1, 2, 3][: max_subs + 1]) if max_subs else 0]:
+        lo_, hi_ = [], []
+        for i in range(ndim):
+            a = rng.randint(0, units[i] - 1)
+            b = rng.randint(a + 1, units[i])
+            lo_.append(pmin[i] + a)
+            hi_.append(pmin[i] + b)
+        subs.append([name, lo_, hi_])
+    spec["subs"] = subs
+    spec["intsubs"] = True
+    return spec
+
+
 def draw_mesh_spec(rng, geo, ndim, max_cells=300, max_subs=3, allow_mixed_units=True, lo=1, hi=6):
+    if geo.family == "dyadic" and max_subs and allow_mixed_units and lo == 1 and rng.random() < 0.12:
+        return draw_intgrid_spec(rng, ndim, max_cells, max_subs)
     n = draw_n(rng, ndim, max_cells, lo, hi)
     spec, n = draw_region_spec(rng, geo, ndim, n, allow_mixed_units)
     spec["n"] = n
